@@ -233,7 +233,7 @@ func runBatch(bin string, sp spec, tier string, seed int64, scratch string, idx,
 	lf, _ := os.Create(logf)
 	cmd.Stdout = lf
 	cmd.Stderr = lf
-	cmd.Env = append(os.Environ(), "GORACE=halt_on_error=0 log_path="+racePrefix, "VERIF_SELF="+bin, "GOTRACEBACK=all")
+	cmd.Env = append(os.Environ(), "GORACE=halt_on_error=0 exitcode=0 log_path="+racePrefix, "VERIF_SELF="+bin, "GOTRACEBACK=all")
 	err := cmd.Run()
 	lf.Close()
 	br.exitErr = err
